@@ -12,6 +12,7 @@ structure Inv (s : St) : Prop where
   nolease : (∀ o, s.obj = some o → hasLease o = false) → mark s ≤ s.returned.length + s.budget
   ipos : ∀ o, s.obj = some o → 0 < o.interval
   sorted : s.returned.Pairwise (· > ·)
+  res_le : ∀ o, s.obj = some o → o.reserved ≤ mark s
 
 theorem inv_init : Inv init := by
   constructor <;> simp [init, mark]
@@ -56,6 +57,7 @@ theorem inv_abandon {s : St} (h : Inv s) : Inv (abandon s) := by
         simp; omega
   · intro o ho; simp [abandon_obj] at ho
   · simpa [abandon_returned] using h.sorted
+  · intro o ho; simp [abandon_obj] at ho
 
 
 /-- Next served from the lease. -/
@@ -104,6 +106,8 @@ theorem inv_serve {s : St} {o : Obj} (h : Inv s) (hobj : s.obj = some o) (hl : h
   · intro o' ho'; simp only [serve, Option.some.injEq] at ho'; subst ho'; exact hip
   · simp only [serve, List.pairwise_cons]
     exact ⟨fun r hr => h1 r hr, h.sorted⟩
+  · intro o' ho'; simp only [serve, Option.some.injEq] at ho'; subst ho'
+    rw [hm]; exact h.res_le o hobj
 
 theorem inv_refill {s : St} {o : Obj} (h : Inv s) (hobj : s.obj = some o) (hl : hasLease o = false) :
     Inv (refill s o) := by
@@ -135,6 +139,8 @@ theorem inv_refill {s : St} {o : Obj} (h : Inv s) (hobj : s.obj = some o) (hl : 
   · intro o' ho'; simp only [refill, Option.some.injEq] at ho'; subst ho'; exact hip
   · simp only [refill, List.pairwise_cons]
     exact ⟨fun r hr => h.below_mark r hr, h.sorted⟩
+  · intro o' ho'; simp only [refill, Option.some.injEq] at ho'; subst ho'
+    rw [hm]; exact Nat.le_refl _
 
 theorem inv_rel {s : St} {o : Obj} (h : Inv s) (hobj : s.obj = some o) (hl : hasLease o = true) :
     Inv (rel s o) := by
@@ -149,6 +155,8 @@ theorem inv_rel {s : St} {o : Obj} (h : Inv s) (hobj : s.obj = some o) (hl : has
   · intro _; rw [hm]; exact h4
   · intro o' ho'; simp only [rel, Option.some.injEq] at ho'; subst ho'; exact hip
   · exact h.sorted
+  · intro o' ho'; simp only [rel, Option.some.injEq] at ho'; subst ho'
+    rw [hm]; exact Nat.le_refl _
 
 /-- Crash after the store write of `update`: the mark moved, the object is gone. -/
 theorem inv_crash_write {s : St} {o : Obj} (h : Inv s) (hobj : s.obj = some o) (hl : hasLease o = false) :
@@ -163,6 +171,7 @@ theorem inv_crash_write {s : St} {o : Obj} (h : Inv s) (hobj : s.obj = some o) (
   · intro _; simp only [mark, Option.getD_some] at *; omega
   · intro o' ho'; simp at ho'
   · exact h.sorted
+  · intro o' ho'; simp at ho'
 
 theorem abandon_serve (s : St) (o : Obj) (hobj : s.obj = some o) :
     abandon (serve s o) = abandon { s with returned := o.next :: s.returned } := by
@@ -172,8 +181,11 @@ theorem abandon_rel (s : St) (o : Obj) (hobj : s.obj = some o) :
     abandon (rel s o) = abandon { s with store := some o.next } := by
   simp [abandon, rel, hobj]
 
-theorem inv_step {s : St} {op : Op} (h : Inv s) (hw : op.wf) : Inv (step s op).1 := by
+theorem inv_step {s : St} {op : Op} (h : Inv s) (hw : op.wf)
+    (hop : ∀ f, op ≠ .failNext f) (hop' : op ≠ .failRelease) : Inv (step s op).1 := by
   cases op with
+  | failNext f => exact absurd rfl (hop f)
+  | failRelease => exact absurd rfl hop'
   | new i =>
     have ha := inv_abandon h
     simp only [step]
@@ -185,6 +197,7 @@ theorem inv_step {s : St} {op : Op} (h : Inv s) (hw : op.wf) : Inv (step s op).1
       simpa [mark] using this
     · intro o ho; simp only [Option.some.injEq] at ho; subst ho; exact hw
     · simpa using ha.sorted
+    · intro o ho; simp only [Option.some.injEq] at ho; subst ho; exact Nat.zero_le _
   | next =>
     cases hobj : s.obj with
     | none => simpa [step, hobj] using h
@@ -235,11 +248,53 @@ theorem inv_step {s : St} {op : Op} (h : Inv s) (hw : op.wf) : Inv (step s op).1
             simp [step, hobj, hl]
           rw [this]; exact inv_crash_write h hobj hl
 
+theorem inv_failset {s : St} {o : Obj} (h : Inv s) (hobj : s.obj = some o) (hl : hasLease o = false) :
+    Inv { s with obj := some { o with next := mark s } } := by
+  have hnl := h.nolease (by intro o' ho'; rw [hobj] at ho'; cases ho'; exact hl)
+  have hres := h.res_le o hobj
+  have hm : mark { s with obj := some { o with next := mark s } } = mark s := rfl
+  constructor
+  · intro r hr; rw [hm]; exact h.below_mark r hr
+  · intro o' ho' hl'
+    simp only [Option.some.injEq] at ho'; subst ho'
+    simp only [hasLease, decide_eq_true_eq] at hl'
+    omega
+  · intro _; rw [hm]; exact hnl
+  · intro o' ho'; simp only [Option.some.injEq] at ho'; subst ho'; exact h.ipos o hobj
+  · exact h.sorted
+  · intro o' ho'; simp only [Option.some.injEq] at ho'; subst ho'; rw [hm]; exact hres
+
+theorem inv_step' {s : St} {op : Op} (h : Inv s) (hw : op.wf) : Inv (step s op).1 := by
+  cases op with
+  | failNext f =>
+    cases hobj : s.obj with
+    | none => simpa [step, hobj] using h
+    | some o =>
+      cases hl : hasLease o with
+      | true =>
+        have : (step s (.failNext f)).1 = serve s o := by simp [step, hobj, hl, serve]
+        rw [this]; exact inv_serve h hobj hl
+      | false =>
+        cases f with
+        | get => simpa [step, hobj, hl] using h
+        | set =>
+          have : (step s (.failNext .set)).1 = { s with obj := some { o with next := mark s } } := by
+            simp [step, hobj, hl]
+          rw [this]; exact inv_failset h hobj hl
+  | failRelease =>
+    cases hobj : s.obj with
+    | none => simpa [step, hobj] using h
+    | some o => cases hl : hasLease o <;> simpa [step, hobj, hl] using h
+  | new i => exact inv_step h hw (by intro f; simp) (by simp)
+  | next => exact inv_step h hw (by intro f; simp) (by simp)
+  | release => exact inv_step h hw (by intro f; simp) (by simp)
+  | crash pt => exact inv_step h hw (by intro f; simp) (by simp)
+
 theorem inv_final (ops : List Op) (hw : ∀ op ∈ ops, op.wf) {s : St} (h : Inv s) : Inv (final s ops) := by
   induction ops generalizing s with
   | nil => simpa [final] using h
   | cons op ops ih =>
     simp only [final, List.foldl_cons]
-    exact ih (fun o ho => hw o (List.mem_cons_of_mem _ ho)) (inv_step h (hw op (List.mem_cons_self)))
+    exact ih (fun o ho => hw o (List.mem_cons_of_mem _ ho)) (inv_step' h (hw op (List.mem_cons_self)))
 
 end Hive.Seq
